@@ -70,6 +70,18 @@ OnTouch ==
   /\ Chk("dropped-value-still-reachable",
          \A k \in DOMAIN E.worlds : \A j \in DOMAIN E.worlds[k].toks :
             <<E.worlds[k].toks[j][1], E.worlds[k].toks[j][2]>> \notin dropped)
+  \* identifiers issued before the operation (world a = worlds[1]) resolved through World::entry:
+  \* what an identifier lands on is a row of a table (seen by iteration), and no two land on one value
+  /\ LET P == E.probes
+         ptoks(k) == {<<P[k].toks[j][1], P[k].toks[j][2]>> : j \in DOMAIN P[k].toks}
+         seen == IF Len(E.worlds) >= 1
+                 THEN {<<E.worlds[1].toks[j][1], E.worlds[1].toks[j][2]>> : j \in DOMAIN E.worlds[1].toks}
+                 ELSE {} IN
+     /\ Chk("corrupt-or-freed-value-reached-through-an-identifier", \A k \in DOMAIN P : P[k].bad = 0)
+     /\ Chk("identifier-resolves-outside-the-tables", \A k \in DOMAIN P : ptoks(k) \subseteq seen)
+     /\ Chk("two-identifiers-resolve-to-one-value",
+            \A a, b \in DOMAIN P : a # b => ptoks(a) \cap ptoks(b) = {})
+     /\ Chk("dropped-value-reachable-through-an-identifier", \A k \in DOMAIN P : ptoks(k) \cap dropped = {})
   /\ Common /\ UNCHANGED cur
 OnDropped ==
   /\ Chk("world-cannot-be-dropped-after-the-panic", ~E.panicked)
